@@ -274,6 +274,87 @@ def _d6(chk, fb):
     chk.floor("D6", "paired map writes", n, 12)
 
 
+STRUCT = ("nodeStructure_", "edgeStructure_", "directed_", "highestNodeID_", "highestEdgeID_", "root_")
+
+
+def _d7(chk, fb):
+    """a refused call leaves all views as they were: in every non-private GlobalGraph member no explicit throw (its own or a
+    helper's precondition test) can be reached after a write to the node/edge structures"""
+    eff = e1.Effects(fb)
+    n_fn = 0
+    for f in sorted(_graph_fns(fb), key=lambda x: x.key):
+        if f.rec.get("access", 0) == 2 or f.rec.get("ctor") or f.rec.get("dtor"):      # private helpers are covered through their callers
+            continue
+        cfg = f.cfg
+        writes = []
+        # locals that are references into a structure (range-for by reference over it)
+        alias = {}
+        for rf in f.all_nodes():
+            if rf["k"] == "CXXForRangeStmt" and "rangeinit" in rf and "loopvar" in rf:
+                ri = f.nodes.get(rf["rangeinit"]) if isinstance(rf["rangeinit"], int) else rf["rangeinit"]
+                lv = f.nodes.get(rf["loopvar"]) if isinstance(rf["loopvar"], int) else rf["loopvar"]
+                rr = e1._root_decl(ri) if ri is not None else None
+                if rr and rr[0] == "f" and rr[2] in STRUCT and lv is not None:
+                    for d in (lv.get("decls") or [lv]):
+                        if "&" in (d.get("ty") or "") and not (d.get("ty") or "").startswith("const ") and "id" in d:
+                            alias[d["id"]] = rr
+        for blk in cfg.blocks:
+            for e in cfg.blocks[blk]["el"]:
+                n = f.nodes.get(e)
+                if n is None:
+                    continue
+                roots = set()
+                if is_call(n):
+                    roots = set(eff.call_effect(f, n))
+                    # a member function called on this object: keep the fields its body (transitively) writes
+                    if n["callee"].get("inrepo") and ("obj" not in n or strip(f.obj(n))["k"] == "CXXThisExpr"):
+                        for t in fb.targets(n):
+                            if t.body is not None:
+                                roots |= {r for r in eff.summary(t, 3) if r[0] == "f"}
+                    roots |= {alias[r[1]] for r in roots if r[0] == "v" and r[1] in alias}
+                elif n["k"] in ("BinaryOperator", "CompoundAssignOperator") and n.get("op", "").endswith("=") and n["op"] not in ("==", "!=", "<=", ">="):
+                    r = e1._root_decl(kids(n)[0])
+                    if r:
+                        roots = {r}
+                        if r[0] == "v" and r[1] in alias:
+                            roots.add(alias[r[1]])
+                elif n["k"] == "UnaryOperator" and n.get("op") in ("++", "--"):
+                    r = e1._root_decl(kids(n)[0])
+                    if r:
+                        roots = {r}
+                if any(r[0] == "f" and r[2] in STRUCT for r in roots if len(r) > 2):
+                    writes.append(n)
+        if not writes:
+            continue
+        # explicit refusals: own throws and calls of the *MustExist_ / precondition helpers (which throw)
+        throws = [n for n in walk(f.body) if n["k"] == "CXXThrowExpr"]
+        throws += [c for c in f.calls() if c["callee"]["name"].endswith("MustExist_")]
+        if not throws:
+            continue
+        n_fn += 1
+        bad = None
+        for t in throws:
+            for w in writes:
+                if w is t or f.contains(w, t) or f.contains(t, w):
+                    continue
+                wb, tb = cfg.stmt_block(w), cfg.stmt_block(t)
+                if wb is None or tb is None:
+                    continue
+                after = (wb == tb and e1.earlier_in_block(cfg, w, t)) or (wb != tb and e1.path_exists(cfg, wb, tb))
+                if after:
+                    bad = (w, t)
+                    break
+            if bad:
+                break
+        if bad:
+            chk.refuted("D7", f.key, "refusal-after-write", f.loc(bad[1]),
+                        "%s can raise at line %s after it has already changed the graph structure at line %s (%s): the refused call leaves the node table and the edge table in disagreement" % (
+                            f.name, bad[1].get("l"), bad[0].get("l"), render(bad[0])[:60]), witness={"history": "a call that is refused, then any query"})
+        else:
+            chk.proved("D7", f.key, "refusal-before-write", f.loc(), "%d refusal(s), %d structure write(s), no refusal reachable after a write" % (len(throws), len(writes)))
+    chk.floor("D7", "GlobalGraph members that both refuse and write", n_fn, 5)
+
+
 def run(chk, fb, tier):
     chk.rule("D1", "nodeStructure_[k] / edgeStructure_[k] read as a value is dominated by nodeMustExist_(k) / edgeMustExist_(k) or a checked find of k")
     chk.rule("D2", "link: helper(a,b) always and helper(b,a) under '!directed_'; unlink: the inverse helper with the same two call shapes")
@@ -281,10 +362,12 @@ def run(chk, fb, tier):
     chk.rule("D4", "an observer member erasing from NToGraphid_ (EToGraphid_) also erases from NToIndex_ (EToIndex_) and resets the indexToN_ (indexToE_) slot")
     chk.rule("D5", "observer operator=: maps refilled by insertion are cleared first; unregisterObserver(old) precedes the switch of subjectGraph_, registerObserver follows it")
     chk.rule("D6", "writes A[k] = v and B[v'] = k' to inverse map pairs in one block satisfy k == k' and v == v'")
+    chk.rule("D7", "in every non-private GlobalGraph member no explicit refusal (throw, *MustExist_ test) is reachable after a write to the node/edge structures")
     _d1(chk, fb)
     _d2(chk, fb)
     _d3(chk, fb)
     _d4(chk, fb)
     _d5(chk, fb)
     _d6(chk, fb)
+    _d7(chk, fb)
     chk.assume("unchecked map::find results on absent ids inside protected GlobalGraph members are undefined behaviour that the installed libstdc++ tolerates (an exception is still raised): not asserted")
